@@ -310,6 +310,9 @@ func callsScenario(s callsSpec, prop string) explore.Scenario {
 				return fail("close", "Client.Close returned %v", closeErr)
 			}
 			check := func(o cop, r callRes) *explore.Verdict {
+				if o.kind == "ReadDirCtx" {
+					return nil // a listing, a context error or a connection error: all proper results of a call whose context is cancelled at some point
+				}
 				if o.kind == "ReadDir" {
 					// a conversation of several requests: nil means the whole listing; an error needs a fault, and a
 					// cut that came after the reply to the CLOSE of its handle is no excuse
